@@ -58,7 +58,8 @@ def _promax(
     h = np.sqrt(np.sum(X * X.conj(), axis=1))
     # Add a stabilizer to avoid zero communalities
     eps = np.finfo(X.dtype).eps
-    X = (1.0 / (h + eps))[:, np.newaxis] * X
+    h = h + eps
+    X = (1.0 / h)[:, np.newaxis] * X
 
     # Max-normalisation of columns
     Xnorm = X / np.max(abs(X), axis=0)
@@ -157,7 +158,8 @@ def _varimax(
 
     # Add a stabilizer to avoid zero communalities
     eps = np.finfo(X.dtype).eps
-    X = (1.0 / (h + eps))[:, np.newaxis] * X
+    h = h + eps
+    X = (1.0 / h)[:, np.newaxis] * X
 
     # Seek for rotation matrix based on varimax criteria
     delta = 0.0
